@@ -47,17 +47,20 @@ CondToks(c) ==
     [] OTHER -> <<TK("id", "currentdate"), TK("tag", ":zone"), S("+0100"), TK("tag", c.t1)>>
                 \o (IF c.t2 = "" THEN <<>> ELSE <<S(c.t2)>>) \o VToks(c.v1) \o VToks(AsList(c.v2))
 
-\* action record: [k, tags (set), v1 (string class or ""), sub (subject), days, secs (number texts)]
+\* action record: [k, tags (set), v1 (string class or ""), sub (subject), days, secs (number texts),
+\*                 lst (a list value: the flags of setflag/addflag/removeflag and of :flags, the :addresses; <<>> = not given)]
 ActToks(a) ==
   CASE a.k = "fileinto" ->
          <<TK("id", "fileinto")>>
          \o (IF ":copy" \in a.tags THEN <<TK("tag", ":copy")>> ELSE <<>>)
          \o (IF ":create" \in a.tags THEN <<TK("tag", ":create")>> ELSE <<>>)
-         \o (IF ":flags" \in a.tags THEN <<TK("tag", ":flags"), S("\\Seen")>> ELSE <<>>)
+         \o (IF ":flags" \in a.tags THEN <<TK("tag", ":flags")>> \o (IF a.lst = <<>> THEN <<S("\\Seen")>> ELSE VToks(<<"l", a.lst>>))
+             ELSE <<>>)
          \o <<S(a.v1)>>
     [] a.k = "redirect" ->
          <<TK("id", "redirect")>> \o (IF ":copy" \in a.tags THEN <<TK("tag", ":copy")>> ELSE <<>>) \o <<S(a.v1)>>
-    [] a.k \in {"reject", "setflag", "addflag", "removeflag"} -> <<TK("id", a.k), S(a.v1)>>
+    [] a.k \in {"reject", "setflag", "addflag", "removeflag"} ->
+         <<TK("id", a.k)>> \o (IF a.lst = <<>> THEN <<S(a.v1)>> ELSE VToks(<<"l", a.lst>>))
     [] a.k = "vacation" ->
          <<TK("id", "vacation")>>
          \o (IF ":subject" \in a.tags THEN <<TK("tag", ":subject"), S(a.sub)>> ELSE <<>>)
@@ -66,6 +69,7 @@ ActToks(a) ==
          \o (IF ":from" \in a.tags THEN <<TK("tag", ":from"), S("me@example.org")>> ELSE <<>>)
          \o (IF ":handle" \in a.tags THEN <<TK("tag", ":handle"), S("h1")>> ELSE <<>>)
          \o (IF ":mime" \in a.tags THEN <<TK("tag", ":mime")>> ELSE <<>>)
+         \o (IF ":addresses" \in a.tags THEN <<TK("tag", ":addresses")>> \o VToks(<<"l", a.lst>>) ELSE <<>>)
          \o <<S(a.v1)>>
     [] OTHER -> <<TK("id", a.k)>>         \* keep, discard, stop
 
